@@ -895,8 +895,14 @@ _FMT_WIDTH = {'b': (1, True), 'B': (1, False), 'h': (2, True), 'H': (2, False), 
 def _parse_struct(fmt):
     if isinstance(fmt, bytes):
         fmt = fmt.decode()
-    if not fmt or fmt[0] not in '<>!':
-        raise Unsupported('struct format without explicit byte order: %r' % (fmt,))
+    if not fmt or fmt[0] not in '<>!=@':
+        # native mode: byte order, size and alignment only matter for multi-byte codes - a format of single-byte codes reads the same in every mode
+        if all(c in 'bBxs' or c.isdigit() for c in fmt):
+            fmt = '>' + fmt
+        else:
+            raise Unsupported('struct format without explicit byte order: %r' % (fmt,))
+    if fmt[0] in '=@':
+        raise Unsupported('struct format in native byte order: %r' % (fmt,))
     big = fmt[0] in '>!'
     items = []
     num = ''
@@ -1021,6 +1027,12 @@ def struct_unpack(ctx, fmt, data, offset, exact):
     d = lift(bytes(data) if isinstance(data, bytearray) else data)
     ln = z3.Length(d.t)
     off = as_int_term(offset)
+    c_off = sym.concrete_int(offset)
+    if not exact and c_off is not None and c_off < 0:
+        # CPython: a negative offset counts from the end of the buffer; one that reaches before its start is an error
+        if not ctx.branch(ln + c_off >= 0):
+            py_raise(struct.error('offset %d out of range for %s-byte buffer' % (c_off, 'this')))
+        off = ln + c_off
     ok = (ln == total) if exact else z3.And(off >= 0, ln - off >= total)
     if not ctx.branch(ok):
         py_raise(struct.error('unpack requires a buffer of %d bytes' % total))
